@@ -91,6 +91,11 @@ def record_def(f):
     """The dead-letter recorder: the crate function taking a DeadLetterReason by value."""
     def go():
         c = [d for d, fn in f.fns.items() if fn.get("has_body") and f.by_def.get(d) and any(f.ty(t).is_adt("dead_letter::DeadLetterReason") for t in fn["inputs"])]
+        # the recorder is told *whose* message died: a convenience wrapper that derives the identity itself
+        # (`fn dead_letter(&self, reason, op) { reason.record(self.identity(), op) }`) is an ordinary helper
+        with_id = [d for d in c if any(f.ty(t).is_adt("Identity") for t in f.fns[d]["inputs"])]
+        if with_id:
+            c = with_id
         if len(c) > 1:
             # the recorder may delegate to private helpers that also take the reason: the entry point is the candidate
             # that no other candidate calls
